@@ -87,9 +87,9 @@ pub fn plan(prop: &str, tier: &str) -> Option<Plan> {
                 jobs,
                 level: "model_checking".into(),
                 rule: match prop {
-                    "C01" => "BFS over all implementation states reachable with connect/try_connect/disconnect/isolate over all operand pairs (u==v included) within (nodes, live edges, edge values) bounds; every state is a history prefix; mirror invariant + query agreement checked on every state. evaluations = transitions executed on the real code; nontrivial = transitions that are removals, failing calls or have u==v".into(),
-                    "C02" => "same exploration on the undirected flavours; symmetry invariant + query agreement on every state".into(),
-                    _ => "every (state, operation) transition of the explored space is executed on the real code and checked against the relational multigraph contract; a second pass repeats every transition with handles of every provenance (clone, graph.get, graph[index], edge endpoint, search result, path node)".into(),
+                    "C01" => "BFS over all implementation states reachable with connect/try_connect/disconnect/isolate over all operand pairs (u==v included) within (nodes, live edges, edge values) bounds; every state is a history prefix; mirror invariant + query agreement checked on every state. evaluations = transitions executed on the real code; nontrivial = transitions that are removals, failing calls or have u==v. A second job walks five long connect-only families on 3 nodes (hub-out, hub-in, all-parallel, all-self-loops, mixed) edge by edge up to 24 (quick) / 48 (thorough) edges and applies every alphabet operation to every prefix, so list lengths past any inline-buffer or growth threshold are covered".into(),
+                    "C02" => "same exploration on the undirected flavours; symmetry invariant + query agreement on every state; plus the long connect-only families (see C01) up to 24 / 48 edges".into(),
+                    _ => "every (state, operation) transition of the explored space is executed on the real code and checked against the relational multigraph contract; a second pass repeats every transition with handles of every provenance (clone, graph.get, graph[index], edge endpoint, search result, path node); every alphabet operation is also applied, under the same contract, to every prefix of five long connect-only families on 3 nodes up to 24 (quick) / 48 (thorough) edges".into(),
                 },
                 bounds: json!({"(nodes, live_edges, edge_values)": seq_bounds(tier)}),
                 exhaustive: true,
@@ -178,9 +178,9 @@ pub fn plan(prop: &str, tier: &str) -> Option<Plan> {
                 jobs,
                 level: "exploration".into(),
                 rule: if prop == "C11" {
-                    "every canonical directed adjacency shape with all nodes members x two insertion orders x every container iteration order (first hash seed producing each of the n! orders, via the seed hook): scc() must be a partition of the members equal to the reference mutual-reachability classes. nontrivial = cases with >= 2 edges".into()
+                    "every canonical directed adjacency shape with all nodes members x two insertion orders x every container iteration order (first hash seed producing each of the n! orders, via the seed hook): scc() must be a partition of the members equal to the reference mutual-reachability classes; plus the large structured families (chains, cycles with chords, fan-out / fan-in with one extra edge at every position, 2..20 nodes quick / 2..40 thorough, three hash seeds). nontrivial = cases with >= 2 edges".into()
                 } else {
-                    "every canonical adjacency shape of each container type x two insertion orders x every container iteration order x {JSON, CBOR}: serialise with the real code, deserialise into a graph with a different hash seed, compare keys, node values, per-node outgoing edge lists (directed: order too; undirected: multiset) and the mirror/symmetry invariant of the result. nontrivial = cases with >= 1 edge".into()
+                    "every canonical adjacency shape of each container type x two insertion orders x every container iteration order x {JSON, CBOR}: serialise with the real code, deserialise into a graph with a different hash seed, compare keys, node values, per-node outgoing edge lists (directed: order too; undirected: multiset) and the mirror/symmetry invariant of the result; plus the large structured families (2..20 nodes quick / 2..40 thorough, three hash seeds, JSON and CBOR). nontrivial = cases with >= 1 edge".into()
                 },
                 bounds: json!({"(nodes, max_edges, shards)": bounds}),
                 exhaustive: true,
@@ -199,7 +199,7 @@ pub fn plan(prop: &str, tier: &str) -> Option<Plan> {
             Some(Plan {
                 jobs,
                 level: "fault_enumeration".into(),
-                rule: "for each of the four containers x {u8, String} keys x {JSON, CBOR}: (a) every schema-free document up to a size/depth bound over 7 atoms; (b) every valid document of every edge list on <=3 nodes up to the edge bound and every single structural fault of it at every position (drop / duplicate / swap / truncate / append / retype to 10 atom kinds / retarget to every declared and one undeclared key), fault pairs on the smallest seeds; (c) every byte prefix; (d) single-byte substitutions of the CBOR encodings and substitutions from the JSON structural alphabet. Oracle: no panic / hang; Err, or Ok(graph) satisfying the invariants whose nodes (with a declared value) and edges (multiset) are contained in the schema-free reading of the document; Err whenever that reading shows an edge naming an undeclared key. nontrivial = every case except the plain valid documents".into(),
+                rule: "for each of the four containers x {u8, String} keys x {JSON, CBOR}: (a) every schema-free document up to a size/depth bound over 7 atoms; (b) every valid document of every edge list on <=3 nodes up to the edge bound and every single structural fault of it at every position (drop / duplicate / swap / truncate / append / retype to 10 atom kinds / retarget to every declared and one undeclared key), fault pairs on the smallest seeds; (c) every byte prefix; (d) single-byte substitutions of the CBOR encodings and substitutions from the JSON structural alphabet; (e) large valid documents (cycle, fan-in of 20 nodes quick; chain, cycle, fan-out, fan-in, multi-edge of 17/24/33/40 nodes thorough) with every single structural fault and every byte prefix. Oracle: no panic / hang; Err, or Ok(graph) satisfying the invariants whose nodes (with a declared value) and edges (multiset) are contained in the schema-free reading of the document; Err whenever that reading shows an edge naming an undeclared key. nontrivial = every case except the plain valid documents".into(),
                 bounds: json!({"quick": "synthetic size<=5 depth<=3; seeds (n,edges) (1,2),(2,2),(3,2); a third of byte values", "thorough": "synthetic size<=6 depth<=4; seeds (1,2),(2,3),(3,3); all 256 byte values"}),
                 exhaustive: true,
                 assumptions: vec![
@@ -211,12 +211,12 @@ pub fn plan(prop: &str, tier: &str) -> Option<Plan> {
         "C14" => Some(Plan {
             jobs: vec![job(prop, "progsweep", "macros", tier, json!({}))],
             level: "exploration".into(),
-            rule: "every invocation of digraph!, ungraph!, sync_digraph!, sync_ungraph! in each of the four signature forms with <=3 listed nodes (identity and reversed listing order), each node's edge list in {omitted, [], every list of <=2 targets over the listed keys} (quick: all with <=2 nodes, 3 nodes with <=2 edges in total), distinct node and edge value literals; per arm invocations with an edge naming an unlisted key at every position of a short list; the () arm and the *_node! / *_connect! helpers. Every program is generated as Rust source, compiled against the working tree and run; its observation (node set, values, per-node edge lists) is compared with the denotation computed by the generator from the invocation's syntax. nontrivial = every invocation".into(),
+            rule: "every invocation of digraph!, ungraph!, sync_digraph!, sync_ungraph! in each of the four signature forms with <=3 listed nodes (identity and reversed listing order), each node's edge list in {omitted, [], every list of <=2 targets over the listed keys} (quick: all with <=2 nodes, 3 nodes with <=2 edges in total), distinct node and edge value literals; per arm invocations with an edge naming an unlisted key at every position of a short list; per arm five large invocations with 20 listed nodes (chain, cycle, fan-out, fan-in in reversed listing order, one list of 40 targets); the () arm and the *_node! / *_connect! helpers. Every program is generated as Rust source, compiled against the working tree and run; its observation (node set, values, per-node edge lists) is compared with the denotation computed by the generator from the invocation's syntax. nontrivial = every invocation".into(),
             bounds: json!({"listed_nodes": 3, "targets_per_list": 2, "forms": 4, "macros": 4}),
             exhaustive: true,
             assumptions: vec![
                 "key type u8, value types i64 / (): the macro bodies do not depend on the concrete types".into(),
-                "incoming-edge order (directed) and the position of foreign half-edges (undirected) are not part of the denotation; each node's own listed edges must appear in listed order".into(),
+                "directed: outgoing and incoming lists must both be in listing order (the macros connect in listing order); undirected: the position of foreign half-edges within a node's list is not part of the denotation, each node's own listed edges must appear in listed order".into(),
             ],
         }),
         "C15" => {
@@ -273,7 +273,7 @@ pub fn plan(prop: &str, tier: &str) -> Option<Plan> {
                     })
                     .collect(),
                 level: "model_checking".into(),
-                rule: "BFS over (member map, adjacency) states reached by histories of insert (5 node objects: 3 graph nodes and 2 same-key impostors with different values), remove, and connect/try_connect/disconnect/isolate applied through handles taken from the container (get / index alternating) or, for non-members, the program's own handles; after every step every view (contains, len, is_empty, get, index, to_vec, iter, roots, leaves, orphans) is compared with a map model plus the reference adjacency, return values of insert/remove with the model, edge operations with the C03 contract observed through the program's own handles (identity), and the DOT exports are parsed statement by statement (to_dot on every state and every hash seed, to_dot_with_attr for all 4^3 callback combinations on small states); the three constructors are compared on the empty container; everything is explored twice: with the program keeping its own handle to every node, and with the container holding the only strong handle of its members (handles are dropped on insert and taken back from remove); insert/remove must not change any adjacency. evaluations = histories executed".into(),
+                rule: "BFS over (member map, adjacency) states reached by histories of insert (5 node objects: 3 graph nodes and 2 same-key impostors with different values), remove, and connect/try_connect/disconnect/isolate applied through handles taken from the container (get / index alternating) or, for non-members, the program's own handles; after every step every view (contains, len, is_empty, get, index, to_vec, iter, roots, leaves, orphans) is compared with a map model plus the reference adjacency, return values of insert/remove with the model, edge operations with the C03 contract observed through the program's own handles (identity), and the DOT exports are parsed statement by statement (to_dot on every state and every hash seed, to_dot_with_attr for all 4^3 callback combinations on small states); the three constructors are compared on the empty container; everything is explored twice: with the program keeping its own handle to every node, and with the container holding the only strong handle of its members (handles are dropped on insert and taken back from remove); insert/remove must not change any adjacency. A third job inserts chains of 1..40 (quick) / 1..96 (thorough) nodes under two hash seeds, checks every view and both DOT exports, then removes every key one by one (checking all views after each removal and that a second removal returns None), so hash-map growth and rehash thresholds are crossed in both directions. evaluations = histories executed".into(),
                 bounds: params.clone(),
                 exhaustive: true,
                 assumptions: vec![
@@ -313,12 +313,14 @@ pub fn plan(prop: &str, tier: &str) -> Option<Plan> {
                 for (n, l, two, sh) in &table {
                     jobs.extend(sharded(prop, "loopx", f, tier, json!({"n": n, "max_l": l, "two_ops": two}), *sh));
                 }
+                let large: Vec<usize> = if tier == "quick" { vec![17] } else { vec![17, 24, 33] };
+                jobs.extend(sharded(prop, "loopx", f, tier, json!({"n": 3, "max_l": 0, "two_ops": false, "large": large}), 5 * large.len()));
             }
             Some(Plan {
                 jobs,
                 level: "exploration".into(),
-                rule: "every canonical shape up to the bound x every root x every loop kind (edge iterators iter_out/iter, iter_in, `for e in &n`; bfs, dfs, pfs-min, pfs-max, preorder, postorder, transposed variants for the directed flavours, closure installed as for_each and as filter, with every target and without, cycle searches) x every script 'at callback step i perform o' for every step the unscripted loop reaches and every o in {connect, try_connect, disconnect, isolate over all operands, degree/is_connected/find queries, a nested complete edge loop, a nested bfs search, clone+drop of a handle}; thorough adds every second mutating operation at every later step; every operation that adds no edge is also executed at *every* callback step. Oracle: no panic / self-deadlock (lock monitor) / crash; the loop ends within 4*(edges + edges added by the script)+8 callbacks; every yielded edge exists in the graph at the moment it is yielded with its true endpoints and value (checked by a fresh iteration from inside the callback); handles taken before the loop still work; the final state equals the state reached by the same operations outside any loop. nontrivial = scripts with a mutating operation".into(),
-                bounds: json!({"(nodes, max_edges, two_op_scripts, shards)": table}),
+                rule: "every canonical shape up to the bound x every root x every loop kind (edge iterators iter_out/iter, iter_in, `for e in &n`; bfs, dfs, pfs-min, pfs-max, preorder, postorder, transposed variants for the directed flavours, closure installed as for_each and as filter, with every target and without, cycle searches) x every script 'at callback step i perform o' for every step the unscripted loop reaches and every o in {connect, try_connect, disconnect, isolate over all operands, degree/is_connected/find queries, a nested complete edge loop, a nested bfs search, clone+drop of a handle}; thorough adds every second mutating operation at every later step; every operation that adds no edge is also executed at *every* callback step. Oracle: no panic / self-deadlock (lock monitor) / crash; the loop ends within 4*(edges + edges added by the script)+8 callbacks; every yielded edge exists in the graph at the moment it is yielded with its true endpoints and value (checked by a fresh iteration from inside the callback); handles taken before the loop still work; the final state equals the state reached by the same operations outside any loop. The same single-operation and every-step scripts also run on hub-heavy multigraphs of 3 nodes with 17 / 24 / 33 edges (hub-out, hub-in, all-parallel, all-self-loops, mixed), so adjacency lists far longer than the enumerated shapes are mutated mid-iteration at every position. nontrivial = scripts with a mutating operation".into(),
+                bounds: json!({"(nodes, max_edges, two_op_scripts, shards)": table, "large_family_edge_counts": if tier == "quick" { vec![17] } else { vec![17, 24, 33] }}),
                 exhaustive: true,
                 assumptions: vec!["a traversal that never calls back cannot be stopped by the closure; the worker watchdog reports it as a hang".into()],
             })
